@@ -431,6 +431,39 @@ func famCodec(dir string, seed int64, tier string) {
 		}
 	}
 
+	// ---- large payloads cut short (Go-side oracles; every buffering threshold of an implementation
+	//      lies somewhere between these lengths) ----
+	for i, n := range []int{200, 4096, 32767, 32768, 32769, 40000, 65536, 100000, 1 << 20} {
+		for _, k := range []sb.Kind{sb.KindString, sb.KindBytes, sb.KindRef, sb.KindTypeName} {
+			var t sb.Token
+			if k == sb.KindBytes || k == sb.KindRef {
+				t = sb.Token{Kind: k, Value: payload(r, n)}
+			} else {
+				t = sb.Token{Kind: k, Value: string(payload(r, n))}
+			}
+			first := sb.Token{Kind: sb.KindInt, Value: i}
+			enc := runEncode([]sb.Token{first, t}, 0, 0).bytes
+			for _, cut := range []int{len(enc) - 1, len(enc) - n/2, len(enc) - n + 1, len(enc) - n} {
+				in := enc[:cut]
+				desc := fmt.Sprintf("big payload cut short: kind=%d len=%d cut=%d of %d", k, n, cut, len(enc))
+				for _, cmp := range []bool{false, true} {
+					for _, fl := range []int{0, 1, 4} {
+						o := runDecode(in, cmp, fl, false, r)
+						repDec.Evaluations++
+						repDec.count("big-cut")
+						if classOf(o.err) == "EPanic" {
+							repDec.violate("C04", "decode-panic", fmt.Sprintf("decoder panicked: %v", o.err), desc)
+						} else if o.err == nil {
+							repDec.violate("C04", "truncation-clean-end", fmt.Sprintf("input cut inside a token decodes to a clean end (cmp=%v reader %q, %d tokens)", cmp, readerFlavours[fl], len(o.toks)), desc)
+						} else if !cmp && !(len(o.toks) == 1 && tokensExactEq(o.toks, []sb.Token{first})) {
+							repDec.violate("C04", "truncation-wrong-tokens", fmt.Sprintf("cut inside the 2nd token delivered %d tokens (reader %q)", len(o.toks), readerFlavours[fl]), desc)
+						}
+					}
+				}
+			}
+		}
+	}
+
 	// ---- truncations, reader faults, mutations of valid encodings ----
 	budget := 2500
 	if thorough {
